@@ -243,12 +243,18 @@ func VerifC02_UnzipStaysInside() {
 // them; whatever that step makes of the name, nothing outside the destination
 // may be touched. One entry named over {'.', '/', 'x', 0xFE}.
 func VerifC02_UnzipNonUTF8Names() {
-	maxLen := 4
+	maxLen := 5
 	if verif.Tier() > 0 {
 		maxLen = 6
 	}
-	name := vNameFromAlphabet("n", maxLen, "./x\xfe")
-	verif.Assume(name != "")
+	// tokens: besides an invalid UTF-8 byte, the escape sequence by which ISO-2022-JP returns to ASCII
+	// (a charset conversion makes it vanish, which can turn ".<ESC>(B." into "..")
+	tokens := []string{".", "/", "x", "\xfe", "\x1b(B"}
+	n := verif.Len("nlen", 1, maxLen)
+	name := ""
+	for i := 0; i < n; i++ {
+		name += tokens[verif.Choice("n", len(tokens))]
+	}
 	hasHigh := false
 	for i := 0; i < len(name); i++ {
 		if name[i] == 0xfe {
